@@ -280,6 +280,14 @@ theorem good_add_detail (k : GKind) (hk : k = .action ∨ k = .actionNoAck) (a :
   have htake : o.detail.take o.detailLen = det := by rw [hd1, hd2, List.take_length]
   refine ⟨{ o with detail := det ++ d, detailLen := (det ++ d).length }, ?_, ?_⟩
   · simp only [GObj.edit, hmod, htake]
+    by_cases hz : d.length = 0
+    · have hnil : d = [] := List.eq_nil_of_length_eq_zero hz
+      subst hnil
+      simp only [List.length_nil, if_true, List.append_nil, hd2]
+      congr 2
+      cases o
+      simp_all
+    · simp [hz]
   · have hkk : o.kind = .action ∨ o.kind = .actionNoAck := by rw [hkind]; exact hk
     refine ⟨hkind, ⟨wf.fc, wf.inv, wf.parse, ⟨rfl, rfl, by rw [List.length_append]; exact hd⟩, wf.noTags, fun h => by rcases hkk with h1 | h1 <;> simp_all⟩, ?_, ?_⟩
     · have e0 : o.encoding = .ok (o.header ++ o.fixed ++ det) := by
